@@ -14,6 +14,10 @@ CLAIMS = {
          "stateless schedule enumeration (preemption bounding + HB cache) on the instrumented implementation", SCHED_NOTE),
  "C02": ("model_checking", "Every schedule within the bound of concurrent sends (pid/name/alias, priorities, bounded mailboxes, fallback, requests, exit signals, delayed send vs cancel, meta mailbox) against the sleep/wake-up transitions of the real receiver; conservation and lost-wake-up oracles at quiescence.", "3 C02",
          "stateless schedule enumeration on the instrumented implementation", SCHED_NOTE),
+ "C03": ("model_checking", "Every schedule within the bound of two senders (node API and sender processes) enqueueing 2-5 messages over every assignment of Normal/High/Max priorities, exit signals, down notifications, log messages and addressing modes against a parked or free-running receiver (actor and meta process); per-sender FIFO and strict-class oracles on the handling order.", "3 C03",
+         "stateless schedule enumeration on the instrumented implementation", SCHED_NOTE),
+ "C04": ("model_checking", "Races: every schedule within the bound of one link/monitor request (pid, name, alias, event; spawn with LinkChild) against the target's termination or unregistration. Histories: breadth-first search over link/unlink/monitor/demonitor/unregister/register/terminate sequences on the real node against a relation-set reference model, notifications and relation table compared after every event.", "3 C04",
+         "stateless schedule enumeration + explicit-state BFS over operation histories on the real node", SCHED_NOTE),
  "C05": ("model_checking", "Every schedule within the bound of single causes and racing pairs of termination causes (handler error, panic, Kill, parent/stranger exit signals, busy and waiting targets) on the real node; terminate-once, finality and reason oracles incl. link/monitor observers.", "3 C05",
          "stateless schedule enumeration on the instrumented implementation", SCHED_NOTE),
 }
